@@ -449,7 +449,7 @@ func TestVerif_codecrt(t *testing.T) {
 	for _, n := range verifrt.SortedKeys(reg) {
 		// types registered by the repository's own *_test.go files of this package (e.g. TestRemoteMessage, whose codec
 		// fails on purpose) are not part of the library's registry
-		if strings.HasPrefix(n, "Test") || strings.HasPrefix(n, "test") {
+		if strings.HasPrefix(n, "Test") || strings.HasPrefix(n, "test") || n == "vfPoisonMsg" {
 			continue
 		}
 		names = append(names, n)
@@ -523,6 +523,22 @@ func TestVerif_codecrt(t *testing.T) {
 				sys := g.rng.Bool()
 				snd, rcv := g.ref(), g.ref()
 				env := mailbox.NewEnvelop(sys, snd, rcv, x)
+				// failures in between: a decode of damaged bytes and an encode that fails inside the Writer must leave nothing
+				// behind (readers and writers are pooled) - the valid envelope that follows must round-trip as ever
+				if g.rng.Intn(100) < 35 {
+					func() {
+						defer func() { _ = recover() }()
+						if heldCopy != nil && len(heldCopy) > 2 {
+							cut := 1 + g.rng.Intn(len(heldCopy)-1)
+							if _, _, _, _, _, _, e := serialize.DecodeEnvelopWithRemoting(codec, heldCopy[:cut]); e != nil {
+								R.Obs("failing_decodes_in_between", 1)
+							}
+						}
+						if _, e := serialize.EncodeEnvelopWithRemoting(codec, mailbox.NewEnvelop(false, snd, rcv, &vfPoisonMsg{N: k})); e != nil {
+							R.Obs("failing_encodes_in_between", 1)
+						}
+					}()
+				}
 				var data []byte
 				var derr error
 				var dsys bool
@@ -571,6 +587,19 @@ func TestVerif_codecrt(t *testing.T) {
 	}
 	R.Obs("uncovered_types", int64(uncovered))
 	vfPrimitiveLayer(R, verifrt.NewRand(verifrt.CaseSeed("codecrt-prim", sh)), perType*4/nsh)
+}
+
+// vfPoisonMsg is a registered message whose writer hands the Writer a value it cannot write (a plain int): the encode
+// fails INSIDE the Writer (sticky error), which is what an application bug in a custom writer looks like. It is never
+// round-tripped; it only makes operations fail in between valid ones.
+type vfPoisonMsg struct{ N int }
+
+func init() {
+	vivid.RegisterCustomMessage[*vfPoisonMsg]("vfPoisonMsg",
+		func(message any, r *messages.Reader, _ messages.Codec) error { return nil },
+		func(message any, w *messages.Writer, _ messages.Codec) error {
+			return w.WriteFrom(message.(*vfPoisonMsg).N, map[string]int{"x": 1})
+		})
 }
 
 func vfFirstDiff(a, b []byte) int {
